@@ -189,7 +189,7 @@ def check(run):
             T = gen_catalog.make_lc_tree(rng, H=int(rng.integers(2, 40)), box=box, velz=velz, smallratio=bool(k % 2))
             slabs = None
         else:
-            T = gen_catalog.make_tree(rng, nslab=int(rng.integers(1, 4)), box=box, velz=velz, smallratio=bool(k % 2), halos_per_slab=None)
+            T = gen_catalog.make_tree(rng, nslab=int(rng.integers(1, 4)), box=box, velz=velz, smallratio=bool(k % 2), halos_per_slab=None, int_header=bool(k % 3 == 1))
             slabs = T['slab_inds']
         try:
             for cleaned in ((True,) if lc else (True, False)):
